@@ -140,7 +140,11 @@ func c16Merge(ctx *core.Ctx, cs *mergeCase, files []renderedFile) {
 	}
 	o := runMerge(files, cs.Order, cs.Schema)
 	ctx.Trans(1)
-	if o.panic != nil || o.err == nil {
+	if o.panic != nil {
+		ctx.Violation("merge-panics", fmt.Sprintf("%s [order %v]: the merge panicked where a located conflict error is due: %v", cs.Tag, cs.Order, o.panic), c16Case{Merge: cs}, "conflict error with file and line", fmt.Sprint(o.panic))
+		return
+	}
+	if o.err == nil {
 		return // C07's business
 	}
 	byName := map[string]*renderedFile{}
